@@ -240,16 +240,35 @@ def explore(lab, scs, label, settle_ms=5000, idle_ms=0, rerun_done=False, idle_m
             raise lib.Infra("life child failed before the baseline: %s" % res["stderr"][-1500:])
         suspects = res["in_flight"] or res["began"][-24:]
         culprits = []
-        for sid in suspects[:40]:
-            if len(deaths) >= 8:
-                break
-            one = run_child(lab, [byid[sid]], "%s-one" % label, 1500, 0, par=1)
-            if one["report"] is None or one["rc"] != 0:
+
+        def dies(ids):
+            one = run_child(lab, [byid[i] for i in ids], "%s-one" % label, 1500, 0, par=max(1, min(len(ids), 24)))
+            return (one["report"] is None or one["rc"] != 0), one
+
+        def bisect(ids):
+            """scenarios of `ids` that end the process on their own (a child per probe costs seconds: halve instead of trying each)"""
+            if not ids or len(deaths) >= 8:
+                return
+            dead, one = dies(ids)
+            if not dead:
+                return
+            if len(ids) == 1:
                 banner, site = death_banner(one["stderr"])
-                deaths.append((byid[sid], banner, site))
-                culprits.append(sid)
+                deaths.append((byid[ids[0]], banner, site))
+                culprits.append(ids[0])
+                return
+            before = len(culprits)
+            bisect(ids[:len(ids) // 2])
+            bisect(ids[len(ids) // 2:])
+            if len(culprits) == before and len(deaths) < 8:
+                # the group dies, neither half does: it takes company
+                banner, site = death_banner(one["stderr"])
+                deaths.append(({"id": -1, "svc": "+".join(sorted({byid[i]["svc"] for i in ids})), "steps": [],
+                                "together": [byid[i] for i in ids[:6]]}, banner, site))
+                culprits.extend(ids)
+        bisect(suspects[:48])
         if not culprits:
-            # only dies in company: report the set
+            # only dies in the company of the whole run: report the set
             banner, site = death_banner(res["stderr"])
             deaths.append(({"id": -1, "svc": "+".join(sorted({byid[s]["svc"] for s in suspects})), "steps": [],
                             "together": [byid[s] for s in suspects[:6]]}, banner, site))
